@@ -274,7 +274,7 @@ func (sc *Scenario) RunAll(seed uint64, thorough bool, n int, workers int) *Resu
 						stuck[w] = 0
 					}
 					last[w] = p
-					if stuck[w] >= 24 { // 2 minutes without finishing one run
+					if stuck[w] >= HangPolls(thorough) { // 2 minutes (thorough tier: 10) without finishing one run
 						run := uint64(atomic.LoadInt64(&current[w]))
 						if site := stuckInLibrary(); site != "" {
 							// A call into the library that takes microseconds has not
@@ -283,12 +283,12 @@ func (sc *Scenario) RunAll(seed uint64, thorough bool, n int, workers int) *Resu
 							// here presupposes that calls return; report it, with a
 							// replay file that regenerates the run's tape from its seed.
 							path := sc.writeHangReplay(seed, run, thorough, site)
-							fmt.Printf("VIOLATION property=%s replay=%s\n  signature: %s/does-not-return/%s\n  detail: run %d of seed %d has been executing library code for 120s without returning (innermost library frame: %s); bounded work is C05's subject, where the same defect is decided by a deterministic step meter\n",
-								sc.ID, path, sc.ID, site, run, seed, site)
+							fmt.Printf("VIOLATION property=%s replay=%s\n  signature: %s/does-not-return/%s\n  detail: run %d of seed %d has been executing library code for %ds without returning (innermost library frame: %s); bounded work is C05's subject, where the same defect is decided by a deterministic step meter\n",
+								sc.ID, path, sc.ID, site, run, seed, 5*HangPolls(thorough), site)
 							os.Exit(1)
 						}
-						fmt.Fprintf(os.Stderr, "WATCHDOG: %s run %d (seed %d) did not finish within 120s and is not inside library code: harness trouble. Exiting 2 (no verdict).\n",
-							sc.ID, run, seed)
+						fmt.Fprintf(os.Stderr, "WATCHDOG: %s run %d (seed %d) did not finish within %ds and is not inside library code: harness trouble. Exiting 2 (no verdict).\n",
+							sc.ID, run, seed, 5*HangPolls(thorough))
 						os.Exit(2)
 					}
 				}
@@ -450,4 +450,15 @@ func (sc *Scenario) writeHangReplay(seed, run uint64, thorough bool, site string
 	b, _ := json.MarshalIndent(rp, "", " ")
 	os.WriteFile(path, b, 0o644)
 	return path
+}
+
+// HangPolls is the number of 5-second polls without a finished run after which
+// a worker counts as stuck: 2 minutes in the quick tier, 10 minutes in the
+// thorough tier (whose runs include frames of up to 256 MiB that legitimately
+// take tens of seconds on a loaded machine).
+func HangPolls(thorough bool) int {
+	if thorough {
+		return 120
+	}
+	return 24
 }
